@@ -113,6 +113,8 @@ pub(crate) struct Gen<'a> {
     pub last_conn: Option<usize>,
     pub last_line: String,
     pub follow_rate: (u32, u32),
+    /// transport fragmentation for this history: capped reads/writes on some connections, lines sent in two pieces
+    pub frag: bool,
 }
 
 fn ip_for(i: usize, v6: bool) -> String {
@@ -127,7 +129,7 @@ impl<'a> Gen<'a> {
     pub(crate) fn new(seed: u64, cfg: &SimConfig, prof: &'a Profile) -> Gen<'a> {
         let mut r = Rng::new(seed);
         let n = r.range(prof.conns.0, prof.conns.1);
-        Gen { r, m: Model::new(cfg), prof, actions: vec![], uniq: 0, n_conns_target: n, exclude: vec![], last_labels: vec![], last_conn: None, last_line: String::new(), follow_rate: (1, 3) }
+        Gen { r, m: Model::new(cfg), prof, actions: vec![], uniq: 0, n_conns_target: n, exclude: vec![], last_labels: vec![], last_conn: None, last_line: String::new(), follow_rate: (1, 3), frag: false }
     }
 
     fn text(&mut self) -> String {
@@ -374,11 +376,16 @@ impl<'a> Gen<'a> {
         self.m = trial;
         self.last_labels = labels;
         self.last_conn = acts.iter().filter_map(|a| a.conn()).next();
-        self.last_line = acts
-            .iter()
-            .filter_map(|a| if let Action::Send { d, .. } = a { Some(String::from_utf8_lossy(&unesc(d)).trim_end().to_string()) } else { None })
-            .next()
-            .unwrap_or_default();
+        let first_sender = acts.iter().filter_map(|a| if let Action::Send { c, .. } = a { Some(*c) } else { None }).next();
+        let mut joined: Vec<u8> = vec![];
+        for a in &acts {
+            if let Action::Send { c, d } = a {
+                if Some(*c) == first_sender {
+                    joined.extend(unesc(d));
+                }
+            }
+        }
+        self.last_line = String::from_utf8_lossy(&joined).lines().next().unwrap_or("").trim_end().to_string();
         self.actions.extend(acts);
         self.actions.push(Action::Settle);
         true
@@ -391,6 +398,7 @@ impl<'a> Gen<'a> {
         // force the acting connection: exclude every other registered one
         tmp.exclude = (0..tmp.m.conns.len()).filter(|c| *c != conn).collect();
         tmp.follow_rate = (0, 1);
+        tmp.frag = false;
         let before = tmp.actions.len();
         let ok = tmp.step(kind);
         self.r = tmp.r;
@@ -410,6 +418,18 @@ impl<'a> Gen<'a> {
     }
 
     pub(crate) fn say(&mut self, c: usize, line: &str) -> bool {
+        if self.frag && self.r.chance(1, 3) {
+            // the line arrives in two segments (possibly cut inside a multi-byte character or between CR and LF),
+            // sometimes with a pause in which the server sees only the first part
+            let full = format!("{}\r\n", line).into_bytes();
+            let k = 1 + self.r.below(full.len() - 1);
+            let mut acts = vec![Action::Send { c, d: esc(&full[..k]) }];
+            if self.r.chance(1, 2) {
+                acts.push(Action::Settle);
+            }
+            acts.push(Action::Send { c, d: esc(&full[k..]) });
+            return self.emit(acts);
+        }
         self.emit(vec![Action::line(c, line)])
     }
 
@@ -420,7 +440,16 @@ impl<'a> Gen<'a> {
     pub(crate) fn open_conn(&mut self) -> usize {
         let i = self.m.conns.len();
         let ip = ip_for(i, self.prof.ipv6);
-        self.emit(vec![Action::Open { ip }]);
+        let mut acts = vec![if self.m.cfg.all_secure { Action::OpenSecure { ip } } else { Action::Open { ip } }];
+        if self.frag {
+            if self.r.chance(1, 2) {
+                acts.push(Action::ReadCap { c: i, n: self.r.range(1, 9) });
+            }
+            if self.r.chance(1, 2) {
+                acts.push(Action::WriteCap { c: i, n: self.r.range(1, 40) });
+            }
+        }
+        self.emit(acts);
         i
     }
 
